@@ -17,7 +17,7 @@ RULE = ('for each (program, scenario in plain / pause+play / kill / failing / ou
 RULE += ('; also: persistent faults in the state-exit hooks, the generic on_entering / on_entered / on_exiting hooks and set_status() as fault points, scenarios failing the process from outside or pausing it by message, unprintable exceptions, listener faults inside a call back into the process, outline workchain steps and predicates as fault points')
 ASSUMPTIONS = ['one injected fault per run', 'only the identity of the injected exception is judged; "exception never retrieved" reports for '
                'futures replaced on the EXCEPTED path are diagnostics']
-REQUIRED = ['early_future_checks', 'class/outline', 'pp_pause_siblings', 'pp_kill_siblings', 'pp_completed', 'late_callbacks', 'fired', 'class/user', 'class/listener', 'class/pauseplay', 'class/construct', 'class/hook']
+REQUIRED = ['self_cancelling_callbacks', 'early_future_checks', 'class/outline', 'pp_pause_siblings', 'pp_kill_siblings', 'pp_completed', 'late_callbacks', 'fired', 'class/user', 'class/listener', 'class/pauseplay', 'class/construct', 'class/hook']
 EXHAUSTIVE = {'quick': True, 'thorough': True}
 BOUNDS = {'quick': '4 programs x 5 scenarios + 2 outlines x 3 scripts, every fault point/occurrence/position', 'thorough': '+ 12 random programs'}
 
@@ -32,6 +32,7 @@ LISTENER = ['on_process_running', 'on_process_waiting', 'on_process_paused', 'on
 FAULT = None
 COUNTS = {}
 FIRED = []
+SELF_CANCELLED = []
 
 
 UnprintableError = programs.UnprintableError
@@ -146,6 +147,11 @@ for _m in LISTENER:
 def _cb_factory(proc, mode, tag):
     def callback():
         proc._t('cb', tag, True)
+        if COUNTS.get('callback/in', 0) % 2 == 1 and getattr(callback, 'handle', None) is not None:
+            # a one-shot callback that takes its own handle off before it does its work (every second one): it is running all the
+            # same, and what it raises is a failure of the process like that of any other callback
+            callback.handle.cancel()
+            SELF_CANCELLED.append(tag)
         fault_point('callback', 'in', proc)
 
     callback.__name__ = 'cb_%s' % tag
@@ -166,6 +172,7 @@ class FaultRun(lifecycle.Run):
         global COUNTS
         COUNTS = {}
         del FIRED[:]
+        del SELF_CANCELLED[:]
         orig_cb = programs._make_cb
         orig_listener = lifecycle.RecListener
         programs._make_cb = _cb_factory
@@ -442,6 +449,7 @@ def run_case(case):
     if rec['task'] not in (['done'],):
         if not (rec['task'] == ['pending'] and not fin['terminated']):
             viol.append(V('stepping-task', 'stepping-task:%s:%s' % (rec['task'][0], sig_tail), 'stepping task ended %s' % (rec['task'],)))
+    obs['self_cancelling_callbacks'] = int(bool(SELF_CANCELLED))
     if point in ('callback', 'step') and X.proc_terminated:
         # a scheduled callback (or the rest of a step) failing after the process terminated -- it was failed or killed from outside
         # in the meantime -- changes nothing (terminal states are final)
